@@ -112,7 +112,7 @@ theorem C19_isPow2_exact (v : Nat) (hv : v < W32) : Bits.isPow2 v = true ↔ ∃
     intro k _ h
     have : 0 < 2 ^ k := Nat.pos_of_ne_zero (by simp)
     omega
-  · have e : u32 (v + W32 - 1) = v - 1 := by unfold u32 W32 at *; omega
+  · have e : u32 (W32 + v - 1) = v - 1 := by unfold u32 W32 at *; omega
     rw [e]
     have hb : (v != 0) = true := by simpa using h0
     rw [hb, Bool.true_and, beq_iff_eq]
@@ -146,7 +146,7 @@ theorem gen_IsPowerOf2_eq (v : Nat) (hv : v < W32) : gen_IsPowerOf2 (v : Int) = 
   · subst h0; simp
   · have e1 : ((v : Int) - (1 : Int) % 2 ^ 32) % 2 ^ 32 = ((v - 1 : Nat) : Int) := by
       unfold W32 at hv; omega
-    have e2 : u32 (v + W32 - 1) = v - 1 := by unfold u32 W32 at *; omega
+    have e2 : u32 (W32 + v - 1) = v - 1 := by unfold u32 W32 at *; omega
     rw [e1, e2]
     have hv0 : (v : Int) ≠ 0 := by omega
     simp only [Int.toNat_natCast, hv0, ne_eq, not_false_eq_true, if_true]
